@@ -335,8 +335,9 @@ theorem windBlock_pre (gp : Nat) (ld : Bool) (cs : List ABlock) (b : ABlock) (L 
     simp only [Function.comp, mkE]
     exact ite_self _
 
-theorem validate_pre (gp : Nat) (ld : Bool) (cs : List ABlock) (b : ABlock) (L : Lin gp (cs ++ [b])) :
-    validate {} (preSt gp ld cs b) [b.hash] [] = some (linSt gp ld (cs ++ [b]), true) := by
+theorem validate_pre (fl : Flags) (hw : fl.windFailureRestores = false) (hg : fl.gtEveryBlock = false)
+    (gp : Nat) (ld : Bool) (cs : List ABlock) (b : ABlock) (L : Lin gp (cs ++ [b])) :
+    validate fl (preSt gp ld cs b) [b.hash] [] = some (linSt gp ld (cs ++ [b]), true) := by
   have hpl := L.pl b (by simp)
   have hall : ∀ e ∈ (preSt gp ld cs b).blocks, e.b.hasGT = true := by
     intro e he
@@ -345,12 +346,12 @@ theorem validate_pre (gp : Nat) (ld : Bool) (cs : List ABlock) (b : ABlock) (L :
     exact (L.pl x hx).2.1
   have hgt : gtCountValid (preSt gp ld cs b) b.prev b.hasGT = true := by
     rw [hpl.2.1]; exact gtCountValid_all _ hall _
-  have hv : validB {} (preSt gp ld cs b) b = true := by
-    simp [validB, hpl.1, L.onp b (by simp)]
+  have hv : validB fl (preSt gp ld cs b) b = true := by
+    simp [validB, hpl.1, L.onp b (by simp), hpl.2.2.1]
   unfold validate
-  simp only [List.head?_cons, getB_pre_new gp ld cs b L, mkE, hgt, Bool.not_true, Bool.false_eq_true, if_false,
+  simp only [List.head?_cons, getB_pre_new gp ld cs b L, mkE, hgt, hw, hg, Bool.not_true, Bool.false_eq_true, if_false,
     List.isEmpty_nil, if_true, List.length_cons, List.length_nil]
-  show runWR {} [b.hash] [] (27 + 1) (preSt gp ld cs b) (.wind 0 false) = _
+  show runWR fl [b.hash] [] (27 + 1) (preSt gp ld cs b) (.wind 0 false) = _
   rw [runWR]
   · simp only [stepWR, Bool.false_and, Bool.false_eq_true, if_false, List.getElem?_cons_zero, getB_pre_new gp ld cs b L, mkE, hv,
       if_true, beq_self_eq_true, windBlock_pre gp ld cs b L]
@@ -378,9 +379,10 @@ theorem calcOld_self (st : State) (s fuel : Nat) : calcOld st s (fuel + 1) s [] 
 
 /-- **Adoption of the next block of a linear all-valid chain, for every length below `genesis_period`** (pinned
     flags): the state stays in closed form and the outcome is `added_lc`, whatever the retry queue holds. -/
-theorem addBlock_lin (gp : Nat) (ld : Bool) (bs : List ABlock) (last b : ABlock) (rq : List Nat)
+theorem addBlock_lin (fl : Flags) (hw : fl.windFailureRestores = false) (hg : fl.gtEveryBlock = false)
+    (gp : Nat) (ld : Bool) (bs : List ABlock) (last b : ABlock) (rq : List Nat)
     (L : Lin gp (bs ++ [last] ++ [b])) (hprev : b.prev = last.hash) :
-    addBlock {} (linSt gp ld (bs ++ [last])) b rq = (linSt gp ld (bs ++ [last] ++ [b]), Outcome.addedLc) := by
+    addBlock fl (linSt gp ld (bs ++ [last])) b rq = (linSt gp ld (bs ++ [last] ++ [b]), Outcome.addedLc) := by
   have h1 := latest_lin gp ld bs last
   have h2 : getB (linSt gp ld (bs ++ [last])) b.hash = none := by
     unfold getB
@@ -396,7 +398,7 @@ theorem addBlock_lin (gp : Nat) (ld : Bool) (bs : List ABlock) (last b : ABlock)
   have h5 : calcNew (insertBlock (linSt gp ld (bs ++ [last])) b) ((insertBlock (linSt gp ld (bs ++ [last])) b).blocks.length + 2)
       b.hash [] = (true, last.hash, [b.hash]) := by
     rw [hins]; exact calcNew_mid gp ld bs last b L hprev _
-  rw [addBlock_found {} _ b rq last.id last.hash last.hash [b.hash] h1 h2 h3 h5, hins]
+  rw [addBlock_found fl _ b rq last.id last.hash last.hash [b.hash] h1 h2 h3 h5, hins]
   have hfuel : (midSt gp ld (bs ++ [last]) b).blocks.length + 2 = ((midSt gp ld (bs ++ [last]) b).blocks.length + 1) + 1 := rfl
   rw [hfuel, calcOld_self]
   unfold adoptTail
@@ -406,7 +408,7 @@ theorem addBlock_lin (gp : Nat) (ld : Bool) (bs : List ABlock) (last b : ABlock)
   have hgt : decide (b.id > last.id - (midSt gp ld (bs ++ [last]) b).gp) = true := by
     simp [hid, hlid]; omega
   simp only [hgt, isLongest_mid gp ld bs last b L, Bool.and_self, if_true, setLC_mid gp ld _ b L,
-    validate_pre gp ld _ b L]
+    validate_pre fl hw hg gp ld _ b L]
   rw [checkSupply_lin gp ld (bs ++ [last]) b L]
 
 /-! ### a whole chain: prefixes, the ladder -/
@@ -427,14 +429,15 @@ theorem Lin.take {gp : Nat} {c : List ABlock} (L : Lin gp c) (m : Nat) : Lin gp 
 /-- every block but the first names its predecessor -/
 def Linked (c : List ABlock) : Prop := ∀ k (hk : k + 1 < c.length), (c[k + 1]).prev = (c[k]'(by omega)).hash
 
-theorem addBlock_chain (gp : Nat) (ld : Bool) (c : List ABlock) (m : Nat) (rq : List Nat) (L : Lin gp c) (hl : Linked c)
+theorem addBlock_chain (fl : Flags) (hw : fl.windFailureRestores = false) (hg : fl.gtEveryBlock = false)
+    (gp : Nat) (ld : Bool) (c : List ABlock) (m : Nat) (rq : List Nat) (L : Lin gp c) (hl : Linked c)
     (hm1 : 1 ≤ m) (hm : m < c.length) :
-    addBlock {} (linSt gp ld (c.take m)) c[m] rq = (linSt gp ld (c.take (m + 1)), Outcome.addedLc) := by
+    addBlock fl (linSt gp ld (c.take m)) c[m] rq = (linSt gp ld (c.take (m + 1)), Outcome.addedLc) := by
   obtain ⟨j, rfl⟩ : ∃ j, m = j + 1 := ⟨m - 1, by omega⟩
   have e1 : c.take (j + 1) = c.take j ++ [c[j]] := take_snoc c j (by omega)
   have e2 : c.take (j + 1 + 1) = c.take j ++ [c[j]] ++ [c[j + 1]] := by rw [take_snoc c (j + 1) hm, e1]
   rw [e1, e2]
-  apply addBlock_lin
+  apply addBlock_lin fl hw hg
   · rw [← e2]; exact L.take _
   · exact hl j hm
 
@@ -485,16 +488,16 @@ theorem addBlock_retry (fl : Flags) (st : State) (b : ABlock) (rq : List Nat) (l
     · exact ⟨Outcome.retryPrev, by simp [hc], rfl⟩
     · exact ⟨Outcome.retryChain, by simp [hc], rfl⟩
 
-theorem retry_chain (gp : Nat) (c : List ABlock) (m i : Nat) (rq : List Nat) (L : Lin gp c) (hl : Linked c)
+theorem retry_chain (fl : Flags) (gp : Nat) (c : List ABlock) (m i : Nat) (rq : List Nat) (L : Lin gp c) (hl : Linked c)
     (hm1 : 1 ≤ m) (hmi : m < i) (hi : i < c.length) :
-    ∃ o, addBlock {} (linSt gp true (c.take m)) c[i] rq = (linSt gp true (c.take m), o) ∧ isRetry o = true := by
+    ∃ o, addBlock fl (linSt gp true (c.take m)) c[i] rq = (linSt gp true (c.take m), o) ∧ isRetry o = true := by
   obtain ⟨j, rfl⟩ : ∃ j, m = j + 1 := ⟨m - 1, by omega⟩
   obtain ⟨i', rfl⟩ : ∃ i', i = i' + 1 := ⟨i - 1, by omega⟩
   have e1 : c.take (j + 1) = c.take j ++ [c[j]] := take_snoc c j (by omega)
   have hlat : latest (linSt gp true (c.take (j + 1))) = some ((c[j]).id, (c[j]).hash) := by
     rw [e1]; exact latest_lin gp true _ _
   have hprev : (c[i' + 1]).prev = (c[i']).hash := hl i' hi
-  apply addBlock_retry {} _ _ rq _ _ hlat
+  apply addBlock_retry fl _ _ rq _ _ hlat
   · exact getB_lin_none gp true c (j + 1) (i' + 1) L (by omega) hi
   · show (List.take (j + 1) c).isEmpty = false
     rw [e1]
@@ -518,19 +521,19 @@ theorem linBlk_eq (c : List ABlock) (m0 : Nat) (d : ABlock) (i : Nat) (h : m0 + 
   simp [linBlk, List.getD, h]
 
 /-- **the ladder conditions hold for every linear all-valid chain** (any length below `genesis_period`, retry rule on) -/
-theorem ladder_lin (gp : Nat) (c : List ABlock) (m0 : Nat) (d : ABlock) (L : Lin gp c) (hl : Linked c)
+theorem ladder_lin (fl : Flags) (hw : fl.windFailureRestores = false) (hg : fl.gtEveryBlock = false) (gp : Nat) (c : List ABlock) (m0 : Nat) (d : ABlock) (L : Lin gp c) (hl : Linked c)
     (hm1 : 1 ≤ m0) (hm : m0 ≤ c.length) :
-    Ladder {} (c.length - m0) (linSts gp c m0) (linBlk c m0 d) := by
+    Ladder fl (c.length - m0) (linSts gp c m0) (linBlk c m0 d) := by
   refine ⟨?_, ?_, ?_, ?_, ?_⟩
   · intro k hk rq
     have hlt : m0 + k < c.length := by omega
     refine ⟨Outcome.addedLc, ?_, rfl, rfl⟩
     rw [linBlk_eq c m0 d k hlt]
-    exact addBlock_chain gp true c (m0 + k) rq L hl (by omega) hlt
+    exact addBlock_chain fl hw hg gp true c (m0 + k) rq L hl (by omega) hlt
   · intro k i hki hi rq
     have hlt : m0 + i < c.length := by omega
     rw [linBlk_eq c m0 d i hlt]
-    exact retry_chain gp c (m0 + k) (m0 + i) rq L hl (by omega) (by omega) hlt
+    exact retry_chain fl gp c (m0 + k) (m0 + i) rq L hl (by omega) (by omega) hlt
   · intro k i hki hi
     have hlt : m0 + i < c.length := by omega
     rw [linBlk_eq c m0 d i hlt]
